@@ -17,6 +17,12 @@ import (
 // relative round-off error in big.Float precision numbers
 var dpSafeEpsilon = 1e-15
 
+// exactPrec is a mantissa size, in bits, in which the determinant of any three
+// finite float64 points is computed without rounding: a float64 is a multiple
+// of 2^-1074 below 2^1024 (2098 bits), a difference needs one more bit, a
+// product of two differences twice that, and their difference one more.
+const exactPrec = 4200
+
 // OrientationIndex returns the index of the direction of point relative
 // to a vector specified by vectorOrigin-vectorEnd
 //
@@ -38,10 +44,10 @@ func OrientationIndex(vectorOrigin, vectorEnd, point geom.Coord) orientation.Typ
 	var dx1, dy1, dx2, dy2 big.Float
 
 	// normalize coordinates
-	dx1.SetFloat64(vectorEnd[0]).Add(&dx1, big.NewFloat(-vectorOrigin[0]))
-	dy1.SetFloat64(vectorEnd[1]).Add(&dy1, big.NewFloat(-vectorOrigin[1]))
-	dx2.SetFloat64(point[0]).Add(&dx2, big.NewFloat(-vectorEnd[0]))
-	dy2.SetFloat64(point[1]).Add(&dy2, big.NewFloat(-vectorEnd[1]))
+	dx1.SetPrec(exactPrec).SetFloat64(vectorEnd[0]).Add(&dx1, big.NewFloat(-vectorOrigin[0]))
+	dy1.SetPrec(exactPrec).SetFloat64(vectorEnd[1]).Add(&dy1, big.NewFloat(-vectorOrigin[1]))
+	dx2.SetPrec(exactPrec).SetFloat64(point[0]).Add(&dx2, big.NewFloat(-vectorEnd[0]))
+	dy2.SetPrec(exactPrec).SetFloat64(point[1]).Add(&dy2, big.NewFloat(-vectorEnd[1]))
 
 	// calculate determinant.  Calculation takes place in dx1 for performance
 	dx1.Mul(&dx1, &dy2)
